@@ -143,8 +143,8 @@ def is_relevant(node):
                 return True
         elif node.get_ident() in ['declare-fun', 'define-fun', 'define-sort'
                                   ] and len(node) > 3:
-            if nodes.contains(node[3], lambda t: t == 'String'):
+            if nodes.contains(node[2:4], lambda t: t == 'String'):
                 return True
-            if nodes.contains(node[3], is_seq_type):
+            if nodes.contains(node[2:4], is_seq_type):
                 return True
     return False
